@@ -1,1 +1,801 @@
-int main() { return 2; }
+// contsim: container op histories against trivial reference models, with the allocator (placement, realloc moves,
+// poison, failure of the k-th request) as the injected environment (DESIGN.md §5 C19).
+// The C implementations (macro packages, through contshim.c) and the C++ classes run the same sequence.
+#include "plan.h"
+#include "simheap.h"
+#include "contshim.h"
+#include "allocate.h"
+#include "hashtab.h"
+#include "objstack.h"
+#include "vlobject.h"
+#include <csetjmp>
+#include <cstdio>
+#include <cstdlib>
+#include <cstring>
+#include <fstream>
+#include <map>
+#include <set>
+#include <sstream>
+#include <sys/wait.h>
+#include <unistd.h>
+
+using namespace sim;
+
+extern "C" {
+void *vsim_malloc(size_t);
+void *vsim_calloc(size_t, size_t);
+void *vsim_realloc(void *, size_t);
+void vsim_free(void *);
+}
+extern "C" __attribute__((used)) const char *__asan_default_options() {
+  return "exitcode=77:detect_leaks=0:abort_on_error=0:allocator_may_return_null=1";
+}
+extern "C" __attribute__((used)) const char *__ubsan_default_options() { return "print_stacktrace=1:halt_on_error=1:exitcode=78"; }
+
+namespace {
+
+enum K {
+  HT_CREATE, HT_INSERT, HT_FIND, HT_REMOVE, HT_EMPTY, HT_COUNT, HT_DELETE,
+  OS_CREATE_, OS_ADD_BYTE, OS_ADD_MEM, OS_ADD_STR, OS_EXPAND, OS_SHORTEN, OS_NULLIFY, OS_FINISH, OS_EMPTY_, OS_DELETE_,
+  VL_CREATE, VL_ADD_BYTE, VL_ADD_MEM, VL_ADD_STR, VL_EXPAND, VL_SHORTEN, VL_NULLIFY, VL_TAILOR, VL_DELETE, NKINDS
+};
+const char *kNames[] = {"HT_CREATE", "HT_INSERT", "HT_FIND", "HT_REMOVE", "HT_EMPTY", "HT_COUNT", "HT_DELETE",
+                        "OS_CREATE", "OS_ADD_BYTE", "OS_ADD_MEM", "OS_ADD_STR", "OS_EXPAND", "OS_SHORTEN", "OS_NULLIFY", "OS_FINISH", "OS_EMPTY", "OS_DELETE",
+                        "VL_CREATE", "VL_ADD_BYTE", "VL_ADD_MEM", "VL_ADD_STR", "VL_EXPAND", "VL_SHORTEN", "VL_NULLIFY", "VL_TAILOR", "VL_DELETE"};
+
+struct COp { int kind = 0; long a = 0, b = 0; std::string bytes; long failk = 0; };
+struct CPlan { uint64_t seed = 0; HeapConfig cfg; std::vector<COp> ops; };
+
+std::string cplan_text(const CPlan &p) {
+  std::ostringstream o;
+  o << "contsim-plan 1\norigin seed=" << p.seed << "\n";
+  o << "config knobs=" << p.cfg.knobs << " poison=" << (int)p.cfg.poison << " fpoison=" << (int)p.cfg.free_poison << " pad=" << p.cfg.pad
+    << " quar=" << p.cfg.quarantine << " realloc=" << p.cfg.realloc_mode << " salt=" << p.cfg.salt << "\n";
+  for (auto &op : p.ops) {
+    o << "op " << kNames[op.kind] << " " << op.a << " " << op.b << " " << esc(op.bytes);
+    if (op.failk) o << " fail=" << op.failk;
+    o << "\n";
+  }
+  return o.str();
+}
+bool cplan_parse(const std::string &t, CPlan *p) {
+  std::istringstream is(t);
+  std::string line;
+  while (std::getline(is, line)) {
+    std::istringstream ls(line);
+    std::string w;
+    if (!(ls >> w) || w[0] == '#') continue;
+    if (w == "origin") { while (ls >> w) if (w.compare(0, 5, "seed=") == 0) p->seed = strtoull(w.c_str() + 5, nullptr, 10); }
+    else if (w == "config") {
+      while (ls >> w) {
+        auto v = [&](const char *k) { size_t n = strlen(k); return w.compare(0, n, k) == 0 ? atoll(w.c_str() + n) : -1; };
+        if (v("knobs=") >= 0) p->cfg.knobs = (int)v("knobs=");
+        if (v("poison=") >= 0) p->cfg.poison = (uint8_t)v("poison=");
+        if (v("fpoison=") >= 0) p->cfg.free_poison = (uint8_t)v("fpoison=");
+        if (v("pad=") >= 0) p->cfg.pad = (int)v("pad=");
+        if (v("quar=") >= 0) p->cfg.quarantine = (int)v("quar=");
+        if (v("realloc=") >= 0) p->cfg.realloc_mode = (int)v("realloc=");
+        if (w.compare(0, 5, "salt=") == 0) p->cfg.salt = strtoull(w.c_str() + 5, nullptr, 10);
+      }
+      if (p->cfg.knobs < 0 || p->cfg.knobs >= kNumKnobs) return false;
+    } else if (w == "op") {
+      COp op;
+      std::string k, b;
+      if (!(ls >> k >> op.a >> op.b >> b)) return false;
+      op.kind = -1;
+      for (int i = 0; i < NKINDS; i++) if (k == kNames[i]) op.kind = i;
+      if (op.kind < 0) return false;
+      op.bytes = unesc(b);
+      while (ls >> w) if (w.compare(0, 5, "fail=") == 0) op.failk = atol(w.c_str() + 5);
+      p->ops.push_back(op);
+    }
+  }
+  return true;
+}
+
+// ---------------------------------------------------------------- keys and hash functions
+struct Key { int k; };
+Key g_keys[48];
+int g_hashkind = 0;
+unsigned hfun(const void *e) {
+  int k = ((const Key *)e)->k;
+  switch (g_hashkind) {
+  case 0: return (unsigned)k;
+  case 1: return 7u;
+  case 2: return (unsigned)(k % 3);
+  default: return (unsigned)k * 2654435761u;
+  }
+}
+int eqfun(const void *a, const void *b) { return ((const Key *)a)->k == ((const Key *)b)->k; }
+
+// ---------------------------------------------------------------- implementations
+struct Impl {
+  virtual ~Impl() {}
+  virtual void ht_create(YaepAllocator *a, size_t n) = 0;
+  virtual const void **ht_find(const void *el, int reserve) = 0;
+  virtual void ht_remove(const void *el) = 0;
+  virtual void ht_empty() = 0;
+  virtual void ht_delete() = 0;
+  virtual size_t ht_size() = 0;
+  virtual size_t ht_count() = 0;
+  virtual void os_create(YaepAllocator *a, size_t n) = 0;
+  virtual void os_delete() = 0;
+  virtual void os_empty() = 0;
+  virtual void os_nullify() = 0;
+  virtual void os_finish() = 0;
+  virtual size_t os_length() = 0;
+  virtual void *os_begin() = 0;
+  virtual void os_shorten(size_t n) = 0;
+  virtual void os_expand(size_t n) = 0;
+  virtual void os_add_byte(int b) = 0;
+  virtual void os_add_memory(const void *p, size_t n) = 0;
+  virtual void os_add_string(const char *s) = 0;
+  virtual void vl_create(YaepAllocator *a, size_t n) = 0;
+  virtual void vl_delete() = 0;
+  virtual void vl_nullify() = 0;
+  virtual void vl_tailor() = 0;
+  virtual size_t vl_length() = 0;
+  virtual void *vl_begin() = 0;
+  virtual void vl_shorten(size_t n) = 0;
+  virtual void vl_expand(size_t n) = 0;
+  virtual void vl_add_byte(int b) = 0;
+  virtual void vl_add_memory(const void *p, size_t n) = 0;
+  virtual void vl_add_string(const char *s) = 0;
+};
+
+struct ImplC : Impl {
+  void *ht = nullptr;
+  void *osd, *vld; // descriptors in caller memory
+  ImplC() { osd = ::malloc(cs_os_sizeof()); vld = ::malloc(cs_vlo_sizeof()); memset(osd, 0x5C, cs_os_sizeof()); memset(vld, 0x5C, cs_vlo_sizeof()); }
+  ~ImplC() { ::free(osd); ::free(vld); }
+  void ht_create(YaepAllocator *a, size_t n) override { ht = cs_ht_create(a, n, hfun, eqfun); }
+  const void **ht_find(const void *el, int r) override { return cs_ht_find(ht, el, r); }
+  void ht_remove(const void *el) override { cs_ht_remove(ht, el); }
+  void ht_empty() override { cs_ht_empty(ht); }
+  void ht_delete() override { cs_ht_delete(ht); ht = nullptr; }
+  size_t ht_size() override { return cs_ht_size(ht); }
+  size_t ht_count() override { return cs_ht_count(ht); }
+  void os_create(YaepAllocator *a, size_t n) override { cs_os_create(osd, a, n); }
+  void os_delete() override { cs_os_delete(osd); }
+  void os_empty() override { cs_os_empty(osd); }
+  void os_nullify() override { cs_os_nullify(osd); }
+  void os_finish() override { cs_os_finish(osd); }
+  size_t os_length() override { return cs_os_length(osd); }
+  void *os_begin() override { return cs_os_begin(osd); }
+  void os_shorten(size_t n) override { cs_os_shorten(osd, n); }
+  void os_expand(size_t n) override { cs_os_expand(osd, n); }
+  void os_add_byte(int b) override { cs_os_add_byte(osd, b); }
+  void os_add_memory(const void *p, size_t n) override { cs_os_add_memory(osd, p, n); }
+  void os_add_string(const char *s) override { cs_os_add_string(osd, s); }
+  void vl_create(YaepAllocator *a, size_t n) override { cs_vlo_create(vld, a, n); }
+  void vl_delete() override { cs_vlo_delete(vld); }
+  void vl_nullify() override { cs_vlo_nullify(vld); }
+  void vl_tailor() override { cs_vlo_tailor(vld); }
+  size_t vl_length() override { return cs_vlo_length(vld); }
+  void *vl_begin() override { return cs_vlo_begin(vld); }
+  void vl_shorten(size_t n) override { cs_vlo_shorten(vld, n); }
+  void vl_expand(size_t n) override { cs_vlo_expand(vld, n); }
+  void vl_add_byte(int b) override { cs_vlo_add_byte(vld, b); }
+  void vl_add_memory(const void *p, size_t n) override { cs_vlo_add_memory(vld, p, n); }
+  void vl_add_string(const char *s) override { cs_vlo_add_string(vld, s); }
+};
+
+struct ImplX : Impl {
+  hash_table *ht = nullptr;
+  os *o = nullptr;
+  vlo *v = nullptr;
+  void ht_create(YaepAllocator *a, size_t n) override { ht = new hash_table(a, n, hfun, eqfun); }
+  const void **ht_find(const void *el, int r) override { return (const void **)ht->find_entry(el, r); }
+  void ht_remove(const void *el) override { ht->remove_element_from_entry(el); }
+  void ht_empty() override { ht->empty(); }
+  void ht_delete() override { delete ht; ht = nullptr; }
+  size_t ht_size() override { return ht->size(); }
+  size_t ht_count() override { return ht->elements_number(); }
+  void os_create(YaepAllocator *a, size_t n) override { o = new os(a, n); }
+  void os_delete() override { delete o; o = nullptr; }
+  void os_empty() override { o->empty(); }
+  void os_nullify() override { o->top_nullify(); }
+  void os_finish() override { o->top_finish(); }
+  size_t os_length() override { return o->top_length(); }
+  void *os_begin() override { return o->top_begin(); }
+  void os_shorten(size_t n) override { o->top_shorten(n); }
+  void os_expand(size_t n) override { o->top_expand(n); }
+  void os_add_byte(int b) override { o->top_add_byte(b); }
+  void os_add_memory(const void *p, size_t n) override { o->top_add_memory(p, n); }
+  void os_add_string(const char *s) override { o->top_add_string(s); }
+  void vl_create(YaepAllocator *a, size_t n) override { v = new vlo(a, n); }
+  void vl_delete() override { delete v; v = nullptr; }
+  void vl_nullify() override { v->nullify(); }
+  void vl_tailor() override { v->tailor(); }
+  size_t vl_length() override { return v->length(); }
+  void *vl_begin() override { return v->begin(); }
+  void vl_shorten(size_t n) override { v->shorten(n); }
+  void vl_expand(size_t n) override { v->expand(n); }
+  void vl_add_byte(int b) override { v->add_byte(b); }
+  void vl_add_memory(const void *p, size_t n) override { v->add_memory(p, n); }
+  void vl_add_string(const char *s) override { v->add_string(s); }
+};
+
+// ---------------------------------------------------------------- models
+struct Fin { const char *addr; std::string bytes; };
+struct Model {
+  bool ht = false;
+  std::set<int> keys;
+  bool removed_since_create = false;
+  bool os = false;
+  std::vector<Fin> fins;
+  std::string top;
+  bool vl = false;
+  std::string v;
+};
+
+struct CViolation { std::string kind, site, detail; int op; int be; };
+struct CResult {
+  std::vector<CViolation> viol;
+  uint64_t hash = 1469598103934665603ull, shape = 1469598103934665603ull;
+  std::map<std::string, long> probes, faults;
+  long ops = 0, alloc_events = 0;
+  bool aborted = false;
+};
+
+jmp_buf g_jmp;
+void alloc_error(void *) { longjmp(g_jmp, 5); }
+int g_announce = -1;
+
+struct Runner {
+  CPlan plan;
+  Backend be;
+  Impl *im;
+  Model m;
+  YaepAllocator *alloc = nullptr;
+  CResult &res;
+  int cur = -1;
+  Runner(const CPlan &p, Backend b, CResult &r) : plan(p), be(b), res(r) { im = b == B_C ? (Impl *)new ImplC() : (Impl *)new ImplX(); }
+  ~Runner() { delete im; }
+  void viol(const char *kind, const std::string &detail) {
+    if (res.viol.size() < 32) res.viol.push_back({kind, kNames[plan.ops[(size_t)cur].kind], detail, cur, (int)be});
+  }
+  template <class F> int guarded(F f) {
+    set_exit_jump(&g_jmp);
+    int j = setjmp(g_jmp);
+    if (j == 0) {
+      LibEnter e;
+      f();
+    }
+    set_exit_jump(nullptr);
+    g_in_lib = 0;
+    return j;
+  }
+  // --- checks of the implementation against a model state
+  bool check_ht(const Model &mm, std::string *why) {
+    if (!mm.ht) return true;
+    for (int k = 0; k < 48; k++) {
+      const void **e = nullptr;
+      int j = guarded([&] { e = im->ht_find(&g_keys[k], 0); });
+      if (j) { *why = "allocation failure during a pure lookup"; return true; } // an expansion attempted by find may fail: nothing to compare
+      const void *got = e ? *e : nullptr;
+      bool want = mm.keys.count(k) != 0;
+      if (want && got != &g_keys[k]) { *why = "key " + std::to_string(k) + " was inserted and not removed but find returns " + (got ? "another entry" : "an empty entry"); return false; }
+      if (!want && got != nullptr) { *why = "key " + std::to_string(k) + " is absent but find returns a non-empty entry"; return false; }
+    }
+    size_t c = 0;
+    guarded([&] { c = im->ht_count(); });
+    if (c != mm.keys.size()) { *why = "element count " + std::to_string(c) + ", model " + std::to_string(mm.keys.size()); return false; }
+    return true;
+  }
+  bool check_os(const Model &mm, std::string *why) {
+    if (!mm.os) return true;
+    for (size_t i = 0; i < mm.fins.size(); i++)
+      if (memcmp(mm.fins[i].addr, mm.fins[i].bytes.data(), mm.fins[i].bytes.size()) != 0) { *why = "finished object " + std::to_string(i) + " changed"; return false; }
+    size_t len = 0;
+    void *b = nullptr;
+    guarded([&] { len = im->os_length(); b = im->os_begin(); });
+    if (len != mm.top.size()) { *why = "top object length " + std::to_string(len) + ", model " + std::to_string(mm.top.size()); return false; }
+    if (len && memcmp(b, mm.top.data(), len) != 0) { *why = "top object bytes differ from the bytes appended so far"; return false; }
+    return true;
+  }
+  bool check_vl(const Model &mm, std::string *why) {
+    if (!mm.vl) return true;
+    size_t len = 0;
+    void *b = nullptr;
+    guarded([&] { len = im->vl_length(); b = im->vl_begin(); });
+    if (len != mm.v.size()) { *why = "VLO length " + std::to_string(len) + ", model " + std::to_string(mm.v.size()); return false; }
+    if (len && memcmp(b, mm.v.data(), len) != 0) { *why = "VLO bytes differ from the bytes appended minus those shortened"; return false; }
+    return true;
+  }
+  bool check_all(const Model &mm, std::string *why, int kind) {
+    if (kind <= HT_DELETE) return check_ht(mm, why);
+    if (kind <= OS_DELETE_) return check_os(mm, why);
+    return check_vl(mm, why);
+  }
+  static std::string fillpat(size_t n, long seed) { std::string s(n, 0); for (size_t i = 0; i < n; i++) s[i] = (char)(1 + (seed * 31 + (long)i * 7) % 250); return s; }
+
+  void run_op(const COp &op, int idx) {
+    cur = idx;
+    if (g_announce >= 0) { char b[96]; int n = snprintf(b, sizeof b, "OPBEGIN %d %s be=%d fault=%d\n", idx, kNames[op.kind], (int)be, op.failk ? 1 : 0); if (write(g_announce, b, (size_t)n) < 0) {} }
+    OpFault hf;
+    hf.alloc_k = op.failk;
+    heap_begin_op(be, idx, hf);
+    res.ops++;
+    Model before = m, after = m;
+    int j = 0;
+    bool applicable = true;
+    const Key *key = &g_keys[(size_t)(((op.a % 48) + 48) % 48)];
+    switch (op.kind) {
+    case HT_CREATE:
+      if (m.ht) { applicable = false; break; }
+      g_hashkind = (int)(op.b & 3);
+      after.ht = true; after.keys.clear(); after.removed_since_create = false;
+      j = guarded([&] { im->ht_create(alloc, (size_t)op.a); });
+      break;
+    case HT_INSERT: {
+      if (!m.ht) { applicable = false; break; }
+      after.keys.insert(key->k);
+      const void **e = nullptr;
+      j = guarded([&] { e = im->ht_find(key, 1); });
+      if (!j) {
+        if (m.keys.count(key->k)) { if (*e != key) viol("ht_find_present", "reserving find of a present key does not return its entry"); }
+        else {
+          if (*e != nullptr) viol("ht_reserved_not_empty", "the entry reserved for an absent key does not read as empty");
+          *e = key;
+          if (m.removed_since_create) res.probes["ht_insert_after_remove"]++;
+        }
+      }
+      break;
+    }
+    case HT_FIND: {
+      if (!m.ht) { applicable = false; break; }
+      const void **e = nullptr;
+      j = guarded([&] { e = im->ht_find(key, 0); });
+      if (!j) {
+        const void *got = *e;
+        if (m.keys.count(key->k) ? got != key : got != nullptr) viol("ht_find", "find of key " + std::to_string(key->k) + " returns " + (got ? "an entry" : "empty") + ", model says " + (m.keys.count(key->k) ? "present" : "absent"));
+      }
+      break;
+    }
+    case HT_REMOVE:
+      if (!m.ht || !m.keys.count(key->k)) { applicable = false; break; } // removing an absent element is outside the contract
+      after.keys.erase(key->k);
+      after.removed_since_create = true;
+      j = guarded([&] { im->ht_remove(key); });
+      break;
+    case HT_EMPTY:
+      if (!m.ht) { applicable = false; break; }
+      after.keys.clear();
+      j = guarded([&] { im->ht_empty(); });
+      break;
+    case HT_COUNT: {
+      if (!m.ht) { applicable = false; break; }
+      size_t c = 0, sz = 0;
+      j = guarded([&] { c = im->ht_count(); sz = im->ht_size(); });
+      if (!j && (c != m.keys.size() || sz < c)) viol("ht_count", "count " + std::to_string(c) + " size " + std::to_string(sz) + ", model count " + std::to_string(m.keys.size()));
+      break;
+    }
+    case HT_DELETE:
+      if (!m.ht) { applicable = false; break; }
+      after.ht = false; after.keys.clear();
+      j = guarded([&] { im->ht_delete(); });
+      break;
+    case OS_CREATE_:
+      if (m.os) { applicable = false; break; }
+      after.os = true; after.fins.clear(); after.top.clear();
+      j = guarded([&] { im->os_create(alloc, (size_t)op.a); });
+      break;
+    case OS_ADD_BYTE:
+      if (!m.os) { applicable = false; break; }
+      after.top.push_back((char)op.a);
+      j = guarded([&] { im->os_add_byte((int)(unsigned char)op.a); });
+      break;
+    case OS_ADD_MEM:
+      if (!m.os) { applicable = false; break; }
+      after.top += op.bytes;
+      j = guarded([&] { im->os_add_memory(op.bytes.data(), op.bytes.size()); });
+      break;
+    case OS_ADD_STR: {
+      if (!m.os) { applicable = false; break; }
+      // documented: the last byte of a non-empty top object is dropped (it is supposed to be the end marker)
+      std::string s = op.bytes.substr(0, op.bytes.find('\0'));
+      if (!after.top.empty()) after.top.pop_back();
+      after.top += s;
+      after.top.push_back('\0');
+      j = guarded([&] { im->os_add_string(s.c_str()); });
+      break;
+    }
+    case OS_EXPAND: {
+      if (!m.os) { applicable = false; break; }
+      std::string pat = fillpat((size_t)op.a, idx);
+      after.top += pat;
+      j = guarded([&] { im->os_expand((size_t)op.a); });
+      if (!j && op.a) { char *b = nullptr; size_t len = 0; guarded([&] { b = (char *)im->os_begin(); len = im->os_length(); }); if (len >= (size_t)op.a) memcpy(b + len - (size_t)op.a, pat.data(), (size_t)op.a); }
+      break;
+    }
+    case OS_SHORTEN:
+      if (!m.os) { applicable = false; break; }
+      if ((size_t)op.a > after.top.size()) after.top.clear(); else after.top.resize(after.top.size() - (size_t)op.a);
+      j = guarded([&] { im->os_shorten((size_t)op.a); });
+      break;
+    case OS_NULLIFY:
+      if (!m.os) { applicable = false; break; }
+      after.top.clear();
+      j = guarded([&] { im->os_nullify(); });
+      break;
+    case OS_FINISH: {
+      if (!m.os) { applicable = false; break; }
+      char *b = nullptr;
+      guarded([&] { b = (char *)im->os_begin(); });
+      after.fins.push_back({b, m.top});
+      after.top.clear();
+      j = guarded([&] { im->os_finish(); });
+      if (after.fins.size() > 1) res.probes["os_several_finished_objects"]++;
+      break;
+    }
+    case OS_EMPTY_:
+      if (!m.os) { applicable = false; break; }
+      after.fins.clear(); after.top.clear();
+      j = guarded([&] { im->os_empty(); });
+      break;
+    case OS_DELETE_:
+      if (!m.os) { applicable = false; break; }
+      after.os = false; after.fins.clear(); after.top.clear();
+      j = guarded([&] { im->os_delete(); });
+      break;
+    case VL_CREATE:
+      if (m.vl) { applicable = false; break; }
+      after.vl = true; after.v.clear();
+      j = guarded([&] { im->vl_create(alloc, (size_t)op.a); });
+      break;
+    case VL_ADD_BYTE:
+      if (!m.vl) { applicable = false; break; }
+      after.v.push_back((char)op.a);
+      j = guarded([&] { im->vl_add_byte((int)(unsigned char)op.a); });
+      break;
+    case VL_ADD_MEM:
+      if (!m.vl) { applicable = false; break; }
+      after.v += op.bytes;
+      j = guarded([&] { im->vl_add_memory(op.bytes.data(), op.bytes.size()); });
+      break;
+    case VL_ADD_STR: {
+      if (!m.vl) { applicable = false; break; }
+      std::string s = op.bytes.substr(0, op.bytes.find('\0'));
+      if (!after.v.empty()) after.v.pop_back();
+      after.v += s;
+      after.v.push_back('\0');
+      j = guarded([&] { im->vl_add_string(s.c_str()); });
+      break;
+    }
+    case VL_EXPAND: {
+      if (!m.vl) { applicable = false; break; }
+      std::string pat = fillpat((size_t)op.a, idx);
+      after.v += pat;
+      j = guarded([&] { im->vl_expand((size_t)op.a); });
+      if (!j && op.a) { char *b = nullptr; size_t len = 0; guarded([&] { b = (char *)im->vl_begin(); len = im->vl_length(); }); if (len >= (size_t)op.a) memcpy(b + len - (size_t)op.a, pat.data(), (size_t)op.a); }
+      break;
+    }
+    case VL_SHORTEN:
+      if (!m.vl) { applicable = false; break; }
+      if ((size_t)op.a > after.v.size()) after.v.clear(); else after.v.resize(after.v.size() - (size_t)op.a);
+      j = guarded([&] { im->vl_shorten((size_t)op.a); });
+      break;
+    case VL_NULLIFY:
+      if (!m.vl) { applicable = false; break; }
+      after.v.clear();
+      j = guarded([&] { im->vl_nullify(); });
+      break;
+    case VL_TAILOR:
+      if (!m.vl) { applicable = false; break; }
+      j = guarded([&] { im->vl_tailor(); });
+      break;
+    case VL_DELETE:
+      if (!m.vl) { applicable = false; break; }
+      after.vl = false; after.v.clear();
+      j = guarded([&] { im->vl_delete(); });
+      break;
+    }
+    OpCounters c = heap_end_op();
+    g_backend = be; // the checks below still run library code (a lookup may expand the table)
+    res.alloc_events += c.requests + c.frees + c.new_requests;
+    if (c.hash_expands) res.probes["ht_expanded"]++;
+    if (c.realloc_moves) res.probes["vlo_realloc_moved"]++;
+    if (op.kind >= OS_ADD_BYTE && op.kind <= OS_EXPAND && c.requests) res.probes["os_new_segment"]++;
+    HeapViolation hv;
+    while (heap_take_violation(&hv)) viol(hv.kind.c_str(), hv.detail);
+    std::string outcome = applicable ? (j ? "failed" : "done") : "noop";
+    if (applicable) {
+      if (j == 5 && c.fault_fired) {
+        res.faults[std::string("alloc@") + kNames[op.kind]]++;
+        // relaxed narrowly: contents as before the failed operation or as after it, never anything else
+        bool create = op.kind == HT_CREATE || op.kind == OS_CREATE_ || op.kind == VL_CREATE;
+        std::string w1, w2;
+        if (create) m = before; // the container does not exist
+        else if (check_all(before, &w1, op.kind)) m = before;
+        else if (check_all(after, &w2, op.kind)) m = after;
+        else if ((op.kind == OS_ADD_STR || op.kind == VL_ADD_STR) && ([&] {
+                   // add_string first drops the end marker of the object, then asks for memory: a failed
+                   // request leaves the object without that byte (a documented two-step operation)
+                   Model mid = before;
+                   if (op.kind == OS_ADD_STR && !mid.top.empty()) mid.top.pop_back();
+                   if (op.kind == VL_ADD_STR && !mid.v.empty()) mid.v.pop_back();
+                   std::string w3;
+                   if (!check_all(mid, &w3, op.kind)) return false;
+                   m = mid;
+                   return true;
+                 })()) { res.probes["add_string_failed_after_dropping_end_marker"]++; }
+        else { viol("state_after_failed_op", "contents are neither those before nor those after the failed operation: " + w1 + " / " + w2); res.aborted = true; }
+      } else if (j) {
+        viol("unexpected_jump", "operation left by a jump without an injected failure");
+        res.aborted = true;
+      } else {
+        m = after;
+        std::string why;
+        bool ok = check_ht(m, &why) && check_os(m, &why) && check_vl(m, &why);
+        if (!ok) { viol(op.kind <= HT_DELETE ? "ht_contents" : op.kind <= OS_DELETE_ ? "os_contents" : "vlo_contents", why); res.aborted = true; }
+      }
+    }
+    res.hash = fnv1a(std::to_string(idx) + kNames[op.kind] + outcome, res.hash);
+    res.shape = fnv1a(std::string(kNames[op.kind]) + outcome + (m.ht ? "h" : "") + (m.os ? "o" : "") + (m.vl ? "v" : ""), res.shape);
+  }
+
+  void run() {
+    heap_reset_run(plan.cfg);
+    g_backend = be;
+    alloc = yaep_alloc_new(vsim_malloc, vsim_calloc, vsim_realloc, vsim_free);
+    yaep_alloc_seterr(alloc, alloc_error, nullptr);
+    for (size_t i = 0; i < plan.ops.size() && !res.aborted; i++) run_op(plan.ops[i], (int)i);
+    // tear down what is left (also checked by the heap registry)
+    if (!res.aborted) {
+      static const int tail[] = {HT_DELETE, OS_DELETE_, VL_DELETE};
+      for (int k : tail) {
+        COp o;
+        o.kind = k;
+        plan.ops.push_back(o);
+        run_op(plan.ops.back(), (int)plan.ops.size() - 1);
+      }
+    }
+    heap_begin_op(be, -2, OpFault());
+    { LibEnter e; yaep_alloc_del(alloc); }
+    g_in_lib = 0;
+    heap_end_op();
+    if (!res.aborted && res.faults.empty()) {
+      size_t left = heap_live_internal(be, true);
+      if (left) { cur = (int)plan.ops.size() - 1; if (cur < 0) cur = 0; res.viol.push_back({"leak", "END", std::to_string(left) + " blocks still allocated after every container was deleted", cur, (int)be}); }
+    }
+    heap_forget_all();
+  }
+};
+
+CResult execute(const CPlan &p) {
+  CResult res;
+  for (int b = 0; b < 2 && !res.aborted; b++) {
+    Runner r(p, (Backend)b, res);
+    r.run();
+  }
+  return res;
+}
+
+// ---------------------------------------------------------------- generator
+CPlan gen(uint64_t seed, bool failing) {
+  Rng r(seed * 0xC2B2AE3D27D4EB4Full + 17);
+  CPlan p;
+  p.seed = seed;
+  static const int knobw[] = {0, 1, 1, 2, 2, 3, 3, 4};
+  p.cfg.knobs = knobw[r.below(8)];
+  static const uint8_t pz[] = {0xAB, 0xCD, 0x5A, 0xFF, 0x01};
+  p.cfg.poison = pz[r.below(5)];
+  p.cfg.free_poison = r.chance(1, 2) ? 0xDD : 0xEE;
+  p.cfg.pad = r.range(0, 3);
+  p.cfg.quarantine = r.range(0, 16);
+  p.cfg.realloc_mode = (int)r.below(3);
+  p.cfg.salt = r.next();
+  int focus = (int)r.below(4); // 0 all, 1 hash table, 2 object stack, 3 vlo
+  int n = r.range(10, 200);
+  int universe = r.chance(1, 3) ? 6 : r.chance(1, 2) ? 20 : 48;
+  auto bytes = [&](int maxlen) { std::string s; int len = r.range(0, maxlen); for (int i = 0; i < len; i++) s.push_back((char)r.range(1, 255)); return s; };
+  for (int i = 0; i < n; i++) {
+    COp op;
+    int which = focus == 0 ? (int)r.below(3) : (r.chance(4, 5) ? focus - 1 : (int)r.below(3));
+    if (which == 0) {
+      static const int w[] = {HT_CREATE, HT_INSERT, HT_INSERT, HT_INSERT, HT_INSERT, HT_FIND, HT_FIND, HT_REMOVE, HT_REMOVE, HT_REMOVE, HT_COUNT, HT_EMPTY, HT_DELETE};
+      op.kind = w[r.below(13)];
+      if ((op.kind == HT_EMPTY || op.kind == HT_DELETE) && !r.chance(1, 4)) op.kind = HT_INSERT;
+      if (op.kind == HT_CREATE) { op.a = r.chance(1, 4) ? r.range(9, 300) : r.range(0, 8); op.b = (long)r.below(4); }
+      else op.a = (long)r.below((uint64_t)universe);
+    } else if (which == 1) {
+      static const int w[] = {OS_CREATE_, OS_ADD_BYTE, OS_ADD_MEM, OS_ADD_MEM, OS_ADD_STR, OS_EXPAND, OS_SHORTEN, OS_NULLIFY, OS_FINISH, OS_FINISH, OS_FINISH, OS_EMPTY_, OS_DELETE_};
+      op.kind = w[r.below(13)];
+      if ((op.kind == OS_EMPTY_ || op.kind == OS_DELETE_) && !r.chance(1, 4)) op.kind = OS_ADD_MEM;
+      if (op.kind == OS_CREATE_) op.a = r.range(0, 64);
+      else if (op.kind == OS_ADD_BYTE) op.a = r.range(0, 255);
+      else if (op.kind == OS_ADD_MEM || op.kind == OS_ADD_STR) op.bytes = bytes(r.chance(1, 6) ? 700 : 40);
+      else if (op.kind == OS_EXPAND) op.a = r.chance(1, 8) ? r.range(100, 1200) : r.range(0, 40);
+      else if (op.kind == OS_SHORTEN) op.a = r.range(0, 30);
+    } else {
+      static const int w[] = {VL_CREATE, VL_ADD_BYTE, VL_ADD_MEM, VL_ADD_MEM, VL_ADD_STR, VL_EXPAND, VL_SHORTEN, VL_SHORTEN, VL_NULLIFY, VL_TAILOR, VL_TAILOR, VL_DELETE};
+      op.kind = w[r.below(12)];
+      if (op.kind == VL_DELETE && !r.chance(1, 4)) op.kind = VL_ADD_MEM;
+      if (op.kind == VL_CREATE) op.a = r.range(0, 64);
+      else if (op.kind == VL_ADD_BYTE) op.a = r.range(0, 255);
+      else if (op.kind == VL_ADD_MEM || op.kind == VL_ADD_STR) op.bytes = bytes(r.chance(1, 6) ? 700 : 40);
+      else if (op.kind == VL_EXPAND) op.a = r.chance(1, 8) ? r.range(100, 1200) : r.range(0, 40);
+      else if (op.kind == VL_SHORTEN) op.a = r.range(0, 30);
+    }
+    if (failing && r.chance(1, 6)) op.failk = r.range(1, 2);
+    p.ops.push_back(op);
+  }
+  // make sure the containers exist early
+  COp c; c.kind = HT_CREATE; c.a = r.range(0, 8); c.b = (long)r.below(4);
+  p.ops.insert(p.ops.begin(), c);
+  c = COp(); c.kind = OS_CREATE_; c.a = r.range(0, 64);
+  p.ops.insert(p.ops.begin(), c);
+  c = COp(); c.kind = VL_CREATE; c.a = r.range(0, 64);
+  p.ops.insert(p.ops.begin(), c);
+  return p;
+}
+
+std::string read_file(const std::string &path) { std::ifstream f(path); std::stringstream ss; ss << f.rdbuf(); return ss.str(); }
+
+void print_v(uint64_t seed, const CViolation &v) {
+  printf("V seed=%llu prop=C19 kind=%s site=%s probe=0 op=%d be=%d detail=%s\n", (unsigned long long)seed, v.kind.c_str(), v.site.c_str(), v.op, v.be, esc(v.detail).c_str());
+}
+
+std::string self_exe() { char b[4096]; ssize_t n = readlink("/proc/self/exe", b, sizeof b - 1); if (n <= 0) return "contsim"; b[n] = 0; return b; }
+
+std::vector<std::string> classify_text(const std::string &text, std::vector<std::string> *details) {
+  std::vector<std::string> classes;
+  char tmpl[] = "/tmp/contsim-XXXXXX";
+  int tfd = mkstemp(tmpl);
+  if (write(tfd, text.data(), text.size()) < 0) {}
+  close(tfd);
+  int po[2], pe[2];
+  if (pipe(po) || pipe(pe)) exit(2);
+  fflush(stdout);
+  pid_t c = fork();
+  if (c == 0) {
+    dup2(po[1], 1); dup2(pe[1], 2); close(po[0]); close(pe[0]);
+    std::string exe = self_exe();
+    execl(exe.c_str(), exe.c_str(), "--replay", tmpl, "--announce", (char *)nullptr);
+    _exit(99);
+  }
+  close(po[1]); close(pe[1]);
+  std::string out, err;
+  char b[65536];
+  ssize_t n;
+  // the child writes little to stdout; read stderr first until EOF, then stdout
+  fd_set rs;
+  bool o1 = true, o2 = true;
+  while (o1 || o2) {
+    FD_ZERO(&rs);
+    int mx = 0;
+    if (o1) { FD_SET(po[0], &rs); mx = po[0]; }
+    if (o2) { FD_SET(pe[0], &rs); if (pe[0] > mx) mx = pe[0]; }
+    if (select(mx + 1, &rs, nullptr, nullptr, nullptr) < 0) break;
+    if (o1 && FD_ISSET(po[0], &rs)) { n = read(po[0], b, sizeof b); if (n <= 0) { o1 = false; close(po[0]); } else out.append(b, (size_t)n); }
+    if (o2 && FD_ISSET(pe[0], &rs)) { n = read(pe[0], b, sizeof b); if (n <= 0) { o2 = false; close(pe[0]); } else if (err.size() < (16u << 20)) err.append(b, (size_t)n); }
+  }
+  int st = 0;
+  waitpid(c, &st, 0);
+  unlink(tmpl);
+  if (WIFEXITED(st) && (WEXITSTATUS(st) == 0 || WEXITSTATUS(st) == 1)) {
+    std::istringstream is(out);
+    std::string line;
+    while (std::getline(is, line))
+      if (line.compare(0, 2, "V ") == 0) {
+        std::string kind, site;
+        std::istringstream ls(line);
+        std::string w;
+        while (ls >> w) { if (w.compare(0, 5, "kind=") == 0) kind = w.substr(5); if (w.compare(0, 5, "site=") == 0) site = w.substr(5); }
+        classes.push_back("C19/" + kind + "/" + site);
+        details->push_back(line);
+      }
+    return classes;
+  }
+  std::istringstream is(err);
+  std::string line, opk = "?", kind, first;
+  while (std::getline(is, line)) {
+    if (line.compare(0, 8, "OPBEGIN ") == 0 && kind.empty()) { char k[32]; int i; if (sscanf(line.c_str(), "OPBEGIN %d %31s", &i, k) == 2) opk = k; continue; }
+    size_t p;
+    if (kind.empty() && (p = line.find("ERROR: AddressSanitizer: ")) != std::string::npos) { std::string rest = line.substr(p + 25); kind = "asan-" + rest.substr(0, rest.find(' ')); first = line; }
+    else if (kind.empty() && line.find("runtime error: ") != std::string::npos) { kind = "ubsan"; first = line; }
+    else if (kind.empty() && line.find("Assertion `") != std::string::npos) { kind = "assertion"; first = line; }
+  }
+  if (kind.empty()) { char kb[32]; snprintf(kb, sizeof kb, WIFSIGNALED(st) ? "signal-%d" : "exit-%d", WIFSIGNALED(st) ? WTERMSIG(st) : WEXITSTATUS(st)); kind = kb; }
+  classes.push_back("C19/" + kind + "/" + opk);
+  details->push_back("crash during " + opk + ": " + first);
+  return classes;
+}
+
+bool has_class(const CPlan &p, const std::string &cls, long *budget) {
+  if (*budget <= 0) return false;
+  (*budget)--;
+  std::vector<std::string> d;
+  for (auto &c : classify_text(cplan_text(p), &d)) if (c == cls) return true;
+  return false;
+}
+
+} // namespace
+
+int main(int argc, char **argv) {
+  for (int k = 0; k < 48; k++) g_keys[k].k = k;
+  uint64_t from = 0, to = 0;
+  std::string mode = "cont";
+  bool shapes = false;
+  for (int i = 1; i < argc; i++) {
+    std::string a = argv[i];
+    if (a == "--mode" && i + 1 < argc) mode = argv[++i];
+    else if (a == "--focus" && i + 1 < argc) ++i;
+    else if (a == "--shapes") shapes = true;
+    else if (a == "--seeds" && i + 1 < argc) { std::string s = argv[++i]; size_t c = s.find(':'); from = strtoull(s.c_str(), nullptr, 10); to = c == std::string::npos ? from + 1 : strtoull(s.c_str() + c + 1, nullptr, 10); }
+    else if (a == "--emit-plan" && i + 1 < argc) {
+      for (int j = 1; j < argc; j++) if (std::string(argv[j]) == "--mode" && j + 1 < argc) mode = argv[j + 1];
+      fputs(cplan_text(gen(strtoull(argv[i + 1], nullptr, 10), mode == "contfail")).c_str(), stdout);
+      return 0;
+    } else if (a == "--replay" && i + 1 < argc) {
+      CPlan p;
+      if (!cplan_parse(read_file(argv[i + 1]), &p)) { fprintf(stderr, "bad plan\n"); return 2; }
+      for (int j = 1; j < argc; j++) if (std::string(argv[j]) == "--announce") g_announce = 2;
+      CResult r = execute(p);
+      printf("HASH %016llx\n", (unsigned long long)r.hash);
+      for (auto &v : r.viol) print_v(p.seed, v);
+      return r.viol.empty() ? 0 : 1;
+    } else if (a == "--classify" && i + 1 < argc) {
+      std::vector<std::string> d;
+      auto cl = classify_text(read_file(argv[i + 1]), &d);
+      for (size_t k = 0; k < cl.size(); k++) printf("CLASS %s | %s\n", cl[k].c_str(), d[k].c_str());
+      printf("HASH %s\n", cl.empty() ? "clean" : "viol");
+      return cl.empty() ? 0 : 1;
+    } else if (a == "--minimize" && i + 3 < argc) {
+      CPlan p;
+      if (!cplan_parse(read_file(argv[i + 1]), &p)) return 2;
+      std::string cls = argv[i + 3];
+      long budget = 400;
+      if (!has_class(p, cls, &budget)) { printf("MINIMIZE not-reproduced\n"); return 2; }
+      size_t n = 2;
+      while (p.ops.size() >= 2 && budget > 0) {
+        size_t len = p.ops.size(), chunk = (len + n - 1) / n;
+        bool red = false;
+        for (size_t s = 0; s < len && budget > 0; s += chunk) {
+          CPlan q = p;
+          q.ops.erase(q.ops.begin() + (long)s, q.ops.begin() + (long)std::min(len, s + chunk));
+          if (!q.ops.empty() && has_class(q, cls, &budget)) { p = q; n = std::max<size_t>(n - 1, 2); red = true; break; }
+        }
+        if (!red) { if (n >= len) break; n = std::min(len, n * 2); }
+      }
+      for (size_t k = 0; k < p.ops.size() && budget > 0; k++) { // shrink arguments
+        if (p.ops[k].failk) { CPlan q = p; q.ops[k].failk = 0; if (has_class(q, cls, &budget)) p = q; }
+        if (p.ops[k].bytes.size() > 1) { CPlan q = p; q.ops[k].bytes = q.ops[k].bytes.substr(0, q.ops[k].bytes.size() / 2); if (has_class(q, cls, &budget)) p = q; }
+      }
+      { CPlan q = p; q.cfg.knobs = 0; q.cfg.pad = 0; q.cfg.realloc_mode = 0; if (budget > 0 && has_class(q, cls, &budget)) p = q; }
+      std::ofstream f(argv[i + 2]);
+      f << "# minimised replay for violation class " << cls << "\n" << cplan_text(p);
+      printf("MINIMIZED ops=%zu out=%s\n", p.ops.size(), argv[i + 2]);
+      return 0;
+    }
+  }
+  if (to <= from) { fprintf(stderr, "usage: contsim --mode cont|contfail --seeds A:B | --emit-plan S | --replay F | --classify F | --minimize F OUT CLASS\n"); return 2; }
+  std::map<std::string, long> probes, faults;
+  long runs = 0, clean = 0, ops = 0, events = 0;
+  for (uint64_t s = from; s < to; s++) {
+    printf("RUN %llu\n", (unsigned long long)s);
+    fflush(stdout);
+    CPlan p = gen(s, mode == "contfail");
+    CResult r = execute(p);
+    runs++;
+    ops += r.ops;
+    events += r.alloc_events;
+    for (auto &kv : r.probes) probes[kv.first] += kv.second;
+    for (auto &kv : r.faults) faults[kv.first] += kv.second;
+    if (r.viol.empty()) { printf("OK %llu %016llx\n", (unsigned long long)s, (unsigned long long)r.hash); clean++; }
+    else { printf("VIOL %llu %016llx gating=%zu\n", (unsigned long long)s, (unsigned long long)r.hash, r.viol.size()); for (auto &v : r.viol) print_v(s, v); }
+    if (shapes) printf("SHAPE %llu %016llx ops=%zu sample=%s\n", (unsigned long long)s, (unsigned long long)r.shape, p.ops.size(), runs <= 1 ? esc(cplan_text(p).substr(0, 1200)).c_str() : "-");
+    fflush(stdout);
+  }
+  const Totals &t = heap_totals();
+  printf("STATS {\"runs\":%ld,\"clean\":%ld,\"ops\":%ld,\"alloc_events\":%ld,\"probes\":{", runs, clean, ops, events);
+  bool first = true;
+  for (auto &kv : probes) { printf("%s\"%s\":%ld", first ? "" : ",", kv.first.c_str(), kv.second); first = false; }
+  printf("},\"faults\":{");
+  first = true;
+  for (auto &kv : faults) { printf("%s\"%s\":%ld", first ? "" : ",", kv.first.c_str(), kv.second); first = false; }
+  printf("},\"heap\":{\"allocs\":%ld,\"frees\":%ld,\"realloc_moves\":%ld,\"faults_alloc\":%ld,\"hash_expands\":%ld,\"steps\":%ld}}\n", t.allocs, t.frees, t.realloc_moves,
+         t.faults_alloc, t.hash_expands, t.steps);
+  return 0;
+}
